@@ -274,6 +274,40 @@ fn product_f64(d: &mut Draw) -> Outcome {
             ensure!(lhs.is_finite() && (lhs - rhs).abs() <= 4096.0 * f64::EPSILON * rhs.abs(), "norm-multiplicative-scaled-f64", "|pq|^2 = {:e} but |p|^2 |q|^2 = {:e} (p of magnitude 2^{}, q of magnitude 2^-{})", lhs, rhs, k, k);
         }
     }
+    // division by a scalar is division of each component, whatever the divisor's size (its reciprocal may not exist as a
+    // float although every quotient does); and a quaternion whose squared norm is subnormal still has its inverse
+    {
+        let div = match d.int(0, 3) {
+            0 => f64::from_bits(d.int(1, 1 << 40) as u64),
+            1 => d.f64_slog(1e-307, 1e-290),
+            2 => d.f64_slog(1e290, 1e307),
+            _ => d.f64_slog(1e-3, 1e3),
+        } * if d.bool() { 1.0 } else { -1.0 };
+        let num = if div.abs() < 1e-200 { mk_q(&[p[0] * 1e-300, p[1] * 1e-300, p[2] * 1e-300, p[3] * 1e-300]) } else { cp };
+        let na = rq(&num);
+        let got = rq(&(num / div));
+        let gotr = rq(&(&num / div));
+        let mut ip = num;
+        ip /= div;
+        for i in 0..4 {
+            let want = na[i] / div;
+            ensure!(got[i].to_bits() == want.to_bits() || (got[i].is_nan() && want.is_nan()), "div-scalar-f64", "component {} of q / {:e} is {:e}, q_i / k = {:e}", i, div, got[i], want);
+            ensure!(gotr[i].to_bits() == got[i].to_bits() || got[i].is_nan(), "div-scalar-ref-f64", "&q / k differs from q / k in component {}", i);
+            ensure!(rq(&ip)[i].to_bits() == got[i].to_bits() || got[i].is_nan(), "div_assign-scalar-f64", "q /= k differs from q / k in component {}", i);
+        }
+        // |q|^2 between 2^-1060 and 2^-1024: subnormal, but not zero, and conj(q)/|q|^2 is an ordinary finite quaternion
+        let base = fnormalize4(&p);
+        let k = -(d.int(513, 528) as i32);
+        let sc = (2.0f64).powi(k);
+        let sq = mk_q(&[base[0] * sc, base[1] * sc, base[2] * sc, base[3] * sc]);
+        if sq.magnitude2() > 0.0 {
+            let inv = cgmath::Rotation::invert(&sq);
+            let r = rq(&(sq * inv));
+            // the squared norm keeps 52 - (1022 + 2k) of its bits down there
+            let lost = (2.0f64).powi(-(52 - ((-2 * k) - 1022)).max(1));
+            ensure!(r.iter().all(|x| x.is_finite()) && (r[0] - 1.0).abs() <= 8.0 * lost && r[1].abs() + r[2].abs() + r[3].abs() <= 8.0 * lost, "inverse-tiny-f64", "q * invert(q) = {:?} for q of magnitude 2^{} (|q|^2 = {:e})", r, k, sq.magnitude2());
+        }
+    }
     // scalar on the left (primitive floats only) and the remaining scalar forms: exact per component
     let k = if class == 2 { 1.5 } else { d.f64_slog(1e-3, 1e3) };
     let left = rq(&(k * cp));
@@ -303,7 +337,7 @@ pub fn property() -> Property {
     add!("algebra-Fp", "Fp", algebra::<Fp>, 5000, 400_000, 64, &[("generic", 200)]);
     add!("rotation-Q", "Q", rotation::<Q>, 5000, 400_000, 64, &[("generic", 100)]);
     add!("rotation-Fp", "Fp", rotation::<Fp>, 5000, 400_000, 64, &[("generic", 200)]);
-    add!("product_rotation-f64", "f64", product_f64, 8000, 500_000, 112, &[("generic", 100), ("near-one", 100), ("wide-magnitudes", 100), ("unit", 100)]);
+    add!("product_rotation-f64", "f64", product_f64, 8000, 500_000, 128, &[("generic", 100), ("near-one", 100), ("wide-magnitudes", 100), ("unit", 100)]);
     Property {
         id: "C04",
         title: "Quaternions obey Hamilton's algebra and unit quaternions act as rotations",
